@@ -722,7 +722,7 @@ CONTRACT_MSGS = ("postcondition not satisfied", "invariant not satisfied", "poss
                  "Call to non-static function fails", "assertion failed", "unreachable", "possible bit shift")
 
 
-def classify_failure(msg, line, code_lines):
+def classify_failure(msg, line, code_lines, text_lines=None):
     """contract: a clause of a function contract / loop contract / safety condition of real code failed.
        hint: an intermediate proof step (assert or lemma call written in an annotation line) failed."""
     on_code = line in code_lines if line is not None else False
@@ -730,6 +730,8 @@ def classify_failure(msg, line, code_lines):
         return "contract"
     if on_code:
         return "contract"       # overflow, bounds, callee precondition, debug_assert (rule X7) at a line of real code
+    if text_lines is not None and line is not None and 0 < line <= len(text_lines) and "contract-step" in text_lines[line - 1]:
+        return "contract"       # an annotation marked as a claim about the program state (not an auxiliary proof step)
     return "hint"
 
 
@@ -782,7 +784,7 @@ def parse_result(res, text, unit, code_lines=frozenset()):
     else:
         out["status"] = "fail"
         out["failures"] = [{"obligation": e.get("fn", "?"), "msg": e["msg"], "line": e["line"],
-                            "kind": classify_failure(e["msg"], e["line"], code_lines)}
+                            "kind": classify_failure(e["msg"], e["line"], code_lines, text.splitlines())}
                            for e in out["errors"] if not e["msg"].startswith("aborting")]
     return out
 
